@@ -257,6 +257,8 @@ pub struct ReaderRec {
     pub cancel_ok: bool,
     pub crashed: bool,
     pub waited_on: Vec<String>,
+    /// Scheduler steps at the begin and at the end of the query.
+    pub span: (u64, u64),
 }
 
 #[derive(Clone, Debug)]
@@ -639,10 +641,11 @@ fn reader_main(
     hooks::named("reader:start");
     for q in queries {
         let result = run_query(&snap, q);
-        let (cancel_ok, crashed, waited_on) = core.with(|st| {
+        let (cancel_ok, crashed, waited_on, span) = core.with(|st| {
+            let now = st.step;
             let t = st.threads.get_mut(&tid).unwrap();
-            let (c, k, w) = (t.cancel_ok, std::mem::take(&mut t.crashed), t.waited_on.clone());
-            (c, k, w.iter().map(|p| if *p == 0 { "?".to_string() } else { st.name(*p) }).collect::<Vec<_>>())
+            let (c, k, w, b) = (t.cancel_ok, std::mem::take(&mut t.crashed), t.waited_on.clone(), t.query_begin_step);
+            (c, k, w.iter().map(|p| if *p == 0 { "?".to_string() } else { st.name(*p) }).collect::<Vec<_>>(), (b, now))
         });
         let cancelled = result == QResult::Cancelled;
         shared.lock().unwrap().readers.push(ReaderRec {
@@ -653,6 +656,7 @@ fn reader_main(
             cancel_ok,
             crashed,
             waited_on,
+            span,
         });
         if cancelled {
             // As every glas handler does via `?`: give the snapshot back at once.
@@ -689,12 +693,14 @@ fn check_history(plan: &Plan, versions: &[Workspace], sh: &Shared, stats: &mut R
         match &r.result {
             QResult::Cancelled => {
                 // salsa: "If the other thread panics, we treat this as cancellation".
-                let peer_panicked = r.waited_on.iter().any(|p| {
-                    sh.readers
-                        .iter()
-                        .any(|o| (p == "?" || &o.reader == p) && o.reader != r.reader && matches!(o.result, QResult::Panic(_)))
-                        || (p == "H" || p == "?") && sh.compares.iter().any(|c| c.results.iter().any(|(_, x)| matches!(x, QResult::Panic(_))))
-                });
+                // A waiter need not have been seen waiting (the event-less wait in
+                // maybe_changed_since): any peer whose panicking query overlaps in time counts.
+                let peer_panicked = sh.readers.iter().any(|o| {
+                    o.reader != r.reader
+                        && matches!(o.result, QResult::Panic(_))
+                        && o.span.0 <= r.span.1
+                        && r.span.0 <= o.span.1
+                }) || sh.compares.iter().any(|c| c.results.iter().any(|(_, x)| matches!(x, QResult::Panic(_))));
                 if peer_panicked {
                     stats.cancelled_by_peer_panic += 1;
                 }
